@@ -174,13 +174,20 @@ theorem C12_order_blocked_senders (s : State) (h : Nat) :
   · right; exact ⟨u, x, b, rest, hws, by rw [he], by rw [he]⟩
 
 /-
-Not proved (full statement of the remaining clause of C12_order): for every task `t`, the
-items offered by `t` enter the stream in the order `t` offered them, i.e.
-  (s.entered.filter (offered by t)) is a sublist of (s.offered.filter (·.1 = t)).map (·.2).
-It follows informally from `entered` being append-only and a task's operations being
-sequential (an item enters only during its own send call); together with `C12_order_fifo`
-this gives per-sender delivery order.  The harness oracle checks it on every run.
+C12_order, full statement (DESIGN section 5): (a) the stream is FIFO, (b) blocked receivers and
+(c) blocked senders are served in the order they started waiting, and (d) for every task `t`
+the items offered by `t` enter the stream in the order `t` offered them:
+  (s.entered.filter (offered by t)) is a sublist of ((s.offered.filter (·.1 = t)).map (·.2)).
+(a)-(c) are proved above (`C12_order_fifo`, `C12_order_blocked_receivers`,
+`C12_order_blocked_senders`).  (d) is NOT proved: it follows informally from `entered` being
+append-only and a task's calls being sequential (a new call needs `pc t = idle`, an item enters
+only during its own send call or from its sender's queue entry), and with (a) gives per-sender
+delivery order.  The harness oracle checks per-(sender, receiver) order on every run.
 -/
+/-- the proved part of C12_order: (a) FIFO as a state invariant -/
+theorem C12_order_partial {s : State} (h : Reach s) :
+    s.entered = s.handed ++ s.buffer ∧ s.buffer.Nodup ∧ s.delivered.Nodup :=
+  ⟨fifo_reach h, (invG_reach h).buffer_nodup, (invG_reach h).delivered_nodup⟩
 
 /-! ### bound and auxiliary invariants -/
 
